@@ -410,6 +410,7 @@ func ParsePacket(flowMessage ProtoProducerMessageIf, data []byte, config PacketL
 	for nextParser.Parser != nil && len(data) >= offset { // check that a next parser exists and there is enough data to read
 		parseConfig.Calls = calls[nextParser.ParserIndex]
 		parseConfig.LayerCall = callsLayer[nextParser.LayerIndex]
+		layersBefore := len(flowMessage.GetFlowMessage().LayerStack)
 		res, err := nextParser.Parser(flowMessage.GetFlowMessage(), data[offset:], parseConfig)
 		parseConfig.Layer += 1
 		if err != nil {
@@ -437,8 +438,11 @@ func ParsePacket(flowMessage ProtoProducerMessageIf, data []byte, config PacketL
 			}
 		}
 
+		// one size per recognised layer: a parser that found its header cut short added no layer
 		fm := flowMessage.GetFlowMessage()
-		fm.LayerSize = append(fm.LayerSize, uint32(res.Size))
+		if len(fm.LayerStack) > layersBefore {
+			fm.LayerSize = append(fm.LayerSize, uint32(res.Size))
+		}
 
 		// compares the next layer index with the last layer that takes part in the comparison to determine
 		// if it's an encapsulation. IP over IP is the equals case.
